@@ -108,6 +108,12 @@ func injectedErr(o Outcome, gr schema.GroupResource, name string) error {
 		return kerrors.NewInternalError(errors.New("injected server error"))
 	case Timeout, ErrorAfter:
 		return kerrors.NewTimeoutError("injected timeout", 1)
+	case NotServed:
+		return &meta.NoKindMatchError{GroupKind: schema.GroupKind{Group: gr.Group, Kind: gr.Resource}, SearchedVersions: []string{"v1"}}
+	case Unavailable:
+		return kerrors.NewServiceUnavailable("injected: the server is currently unable to handle the request")
+	case Missing:
+		return kerrors.NewNotFound(gr, name)
 	}
 	return nil
 }
@@ -510,7 +516,7 @@ func (c *Client) do(req *writeReq) (map[string]any, error) {
 		w.record(&ev)
 		w.mu.Unlock()
 		panic(Crash{c.Actor, idx})
-	case Conflict, ServerError, Timeout:
+	case Conflict, ServerError, Timeout, NotServed, Unavailable, Missing:
 		return fail(injectedErr(out, w.gr(req.key), req.key.Name))
 	}
 
@@ -765,7 +771,7 @@ func (w *World) prepareUpdate(gvk schema.GroupVersionKind, sub string, cur, next
 		return nil, err
 	}
 	// generation moves when anything but metadata and status changed
-	if !reflect.DeepEqual(withoutMetaStatus(cur), withoutMetaStatus(next)) {
+	if tracksGeneration(gvk.Group) && !reflect.DeepEqual(withoutMetaStatus(cur), withoutMetaStatus(next)) {
 		g, _, _ := unstructured.NestedInt64(cur, "metadata", "generation")
 		unstructured.SetNestedField(next, g+1, "metadata", "generation") //nolint:errcheck
 	}
@@ -824,11 +830,22 @@ func (w *World) prepareCreate(gvk schema.GroupVersionKind, next map[string]any) 
 	w.uidN++
 	md["uid"] = fmt.Sprintf("uid-%04d", w.uidN)
 	md["creationTimestamp"] = w.now()
-	md["generation"] = int64(1)
+	if tracksGeneration(gvk.Group) {
+		md["generation"] = int64(1)
+	} else {
+		delete(md, "generation")
+	}
 	if hasStatusSub(w, gvk.GroupKind()) {
 		delete(next, "status")
 	}
 	return next, nil
+}
+
+// tracksGeneration: the API server maintains metadata.generation for custom resources and for
+// built-in kinds with a spec/status split; core objects (Secret, ConfigMap, ServiceAccount,
+// Namespace ...) and RBAC objects have no generation (it stays 0 whatever changes).
+func tracksGeneration(group string) bool {
+	return group != "" && group != "rbac.authorization.k8s.io"
 }
 
 const suffixChars = "bcdfghjklmnpqrstvwxz2456789"
